@@ -5,6 +5,7 @@ CONSTANTS
   Closers = {1, 2}
   AsIs_D8 = FALSE
   AsIs_D9 = TRUE
+  Mut_CloseSkipsDeadStream = FALSE
 SPECIFICATION GenSpec
 INVARIANTS TypeOK NoStuckEnd
 CHECK_DEADLOCK FALSE
